@@ -365,6 +365,11 @@ def run_req(case, res):
     return [(line, impl)], bad, sig
 
 
+def loop_errors(sim):
+    """exceptions the event loop's handler saw during a simulated run (a timer callback or `datagram_received` raised)"""
+    return [("C13:exception", "exception in the event loop: %s" % str(e.get("exception") or e.get("message"))[:200]) for e in sim.errors[:1]]
+
+
 # ------------------------------------------------------------------------------------------
 # stream hear (virtual time, real host)
 
@@ -453,7 +458,7 @@ def run_hear(case, res):
         await vsim.close_host(host)
 
     sim.run(main)
-    bad = []
+    bad = loop_errors(sim)
     theirs_set = set(range(case["nknown"])) | ({"x"} if case["extra"] else set())
     ours_set = set(range(case["ours"]))
     expect_sup = case["registered"] is True and not case["qu"] and case["gap"] <= 999 and theirs_set <= ours_set
@@ -558,7 +563,7 @@ def run_loop(case, res):
     # ---- replay the loop in the model, iteration by iteration
     fz = {None: "-", "QU": "1", "QM": "0"}[case["forced"]]
     pairs = []
-    bad = []
+    bad = loop_errors(sim)
     start = o["start"]
     draws = list(o["draws"])
     # group the log into iterations: [gen] wait
@@ -629,6 +634,22 @@ def loop_model_check(res, case, run_driver):
 
 RUNNERS = {"svc": run_svc, "req": run_req, "hear": run_hear, "loop": run_loop}
 
+
+def guarded(case, res):
+    """run one case; fail closed: every generated case is a valid input of the library, so an exception that escapes one of the
+    anchored functions is a violation with the input as replay (a defect of the harness itself looks the same and must be
+    repaired -- it is never filed as a note).  -> (pairs, bad, sig), pairs = None when the case crashed"""
+    try:
+        return RUNNERS[case["stream"]](case, res)
+    except Exception as ex:
+        import traceback
+
+        tb = traceback.extract_tb(ex.__traceback__)
+        where = next(("%s:%d %s" % (f.filename.split("/")[-1], f.lineno, f.name) for f in reversed(tb) if "/zeroconf/" in f.filename), None)
+        what = "%s stream: %s: %s escaped %s under a valid input" % (case.get("stream"), type(ex).__name__, str(ex)[:160],
+                                                                    where or "the harness (%s:%d)" % (tb[-1].filename.split("/")[-1], tb[-1].lineno))
+        return None, [("C13:exception", what)], None
+
 D13_CASE = {"stream": "loop", "simseed": 1, "timeout": 3000, "forced": None, "arrive": {"at": 300, "what": "srv"}}
 
 
@@ -653,10 +674,12 @@ def run(ctx):
     seen = set()
     loops = []
     for case in cases:
-        try:
-            pairs, bad, sig = RUNNERS[case["stream"]](case, res)
-        except Exception as ex:
-            res.notes.append("case crashed in the harness: %s %r" % (case.get("stream"), ex))
+        pairs, bad, sig = guarded(case, res)
+        if pairs is None:
+            res.count("crashed")
+            if "C13:exception" not in seen or res.dist["crashed"] <= 5:
+                seen.add("C13:exception")
+                res.violate("C13:exception", bad[0][1], {k: v for k, v in case.items() if not k.startswith("_")})
             continue
         res.evaluations += 1
         res.count(case["stream"])
@@ -690,8 +713,10 @@ def run(ctx):
 def replay(body):
     case = dict(body.get("case", body))
     res = C.Result("C13")
-    pairs, bad, sig = RUNNERS[case["stream"]](case, res)
+    pairs, bad, sig = guarded(case, res)
     out = {"oracle": bad, "violates": bool(bad)}
+    if pairs is None:
+        return out
     try:
         model = C.run_driver([p[0] for p in pairs])
         out["model_agrees"] = all(m == p[1] for m, p in zip(model, pairs))
